@@ -1,5 +1,6 @@
 """C11 - the DWARF view is invariant under container encoding of the same debug data."""
 from symx.api import H
+from harness import c05 as C5
 from spec import enc
 from spec import elf_layout as L
 from harness.elfkit import Image
@@ -307,6 +308,11 @@ HARNESSES = [
       expect=('ok', 'rejected'),
       desc='.gnu_debuglink: file name of every length residue (padding to 4) and stored checksum (symbolic) parsed; the link is followed iff follow_links, a loader exists and the file has no '
            'debug info of its own; followed iff stored == computed CRC (both symbolic), ELFError otherwise; loader called with the encoded name'),
+    H('h11_6_line_names_behind_sup', C5.h_header,
+      lambda tier: [c for c in C5._header_instances(tier) if c['ver'] == 5 and any(f in ('strp_sup', 'GNU_strp_alt') for k in ('dir_format', 'file_format') for _, f in c['shape'].get(k, []))],
+      expect=('ok',),
+      desc='line-table directory and file names stored in the supplementary file (DW_FORM_strp_sup / DW_FORM_GNU_strp_alt in a v5 header) resolve through the supplementary '
+           'string table, next to names of the same header kept in .debug_str / .debug_line_str (harness shared with C05)'),
     H('h11_5_suplink', h_suplink, lambda tier: [dict(kind=k, little=l, namelen=n, follow=f, loader=ld) for k in ('debug_sup', 'gnu_debugaltlink') for l in (True, False) for n in (1, 4)
                                                 for (f, ld) in ((True, True), (False, True), (True, False))], expect=('ok',),
       desc='.debug_sup (is_supplementary symbolic) / .gnu_debugaltlink: file name parsed, supplementary file loaded through the loader only when follow_links and a loader exist'),
